@@ -514,3 +514,29 @@ def _(u):
 @unit("mcp.select_start_nodes", file="rl4co/envs/graph/mcp/env.py", func="MCPEnv.select_start_nodes", props=("C12", "C10"))
 def _(u):
     _graph_start_nodes(u, "rl4co/envs/graph/mcp/env.py", "MCPEnv")
+
+
+# ---------------------------------------------------------------------------------------------
+# C10 / C12: random start actions (FJSP / JSSP multi-start) are drawn from the admitted actions only
+# ---------------------------------------------------------------------------------------------
+def _sample_n_random_actions(u, N, n):
+    B = u.dim("B")
+    mask = u.tensor("action_mask", (B, N), "b")
+    ops.uses_inf()
+    # every row admits some action (C02); column 0 is the waiting action
+    u.requires(u.forall((B,), lambda b: u.exists((N,), lambda j: mask.at(b, j))))
+    td = SymTD({"action_mask": mask}, (B,))
+    sel = u.run(OPS, "sample_n_random_actions", td, n, record=False)       # the support-size obligation of torch.multinomial is discharged here
+    b = u.idx((B,), "b")
+    s = u.idx((n,), "s")
+    same_tensor(u, "shape", sel, (n * B,), lambda r: sel.at(r), tags=("C10", "C12"))
+    from tvc.unit import divmod_hint
+    divmod_hint(u, zint(s) * B + b, s, B, b)
+    # start-major layout: start s of instance b sits at row s*B + b, and is an action its own mask admits
+    u.prove("start-is-admitted-by-own-mask", mask.at(b, sel.at(zint(s) * B + b)), tags=("C10", "C12"))
+    u.prove("start-in-range", AND(sel.at(zint(s) * B + b) >= 0, sel.at(zint(s) * B + b) < N), tags=("C10",))
+    u.canary("start-is-never-waiting", sel.at(zint(s) * B + b) != 0)
+
+
+for _N, _n in ((4, 2), (4, 3), (5, 2)):
+    unit(f"ops.sample_n_random_actions.N{_N}.n{_n}", file=OPS, func="sample_n_random_actions", props=("C10", "C12"))(lambda u, _N=_N, _n=_n: _sample_n_random_actions(u, _N, _n))
